@@ -239,8 +239,16 @@ func (g *Gen) w5round(e *w5env) []Stmt {
 		g.use("w5-operand-pairs")
 		nv := func() Expr {
 			la, lb := v(e.la), v(e.lb)
+			// (nested: ua is an upvalue; `ua + bump()` is not generated there: the interpreter, like
+			// lcode.c, copies an upvalue operand before the right operand runs, while the reference
+			// evaluator's late-read rule of Eval.v EBin treats every variable in scope as a register
+			// local - a slip of the reference found by this shape in C02's thorough tier, see notes)
+			var bump Expr = &Call{F: v(e.bump)}
+			if e.nested {
+				bump = &Call{F: v(e.id), Args: []Expr{num(23)}}
+			}
 			return []Expr{la, v(e.ua), v(e.ga), idx(v(e.t), "x"), &Paren{E: &Or{A: v(e.ln), B: lb}}, &Paren{E: &And{A: la, B: v(e.ub)}},
-				&Call{F: v(e.id), Args: []Expr{la}}, &Paren{E: &Call{F: v(e.two)}}, bin("+", la, num(1)), &Call{F: v(e.bump)},
+				&Call{F: v(e.id), Args: []Expr{la}}, &Paren{E: &Call{F: v(e.two)}}, bin("+", la, num(1)), bump,
 				&Paren{E: &Or{A: &And{A: v(e.lf), B: la}, B: &Call{F: v(e.two)}}}, e.konst()}[g.R.Intn(12)]
 		}
 		tv := func() Expr {
